@@ -3,6 +3,7 @@ Loading histories (ascmhl/history.py `load_from_path`, `_find_and_load_child_his
 naming, the lookups over generations, and routing of a path to the deepest history.
 -/
 import MhlModel.Tree
+import MhlModel.Codec
 
 namespace MhlModel
 
@@ -10,10 +11,11 @@ namespace MhlModel
 
 def isDigit (c : Char) : Bool := '0' ≤ c && c ≤ '9'
 
-/-- `re.findall(r"^(\d{4,})(?:_(.+))?$", name_without_extension)`: the generation number if the name conforms.
+def extChars : List Char := Gen.fileExtension.toList
+
+/-- `re.findall(r"^(\d{4,})(?:_(.+))?$", name_without_extension)`: the generation number if the stem conforms.
 The `.+` group must be non-empty and (no DOTALL) free of newlines. -/
-def parseGenBase (base : String) : Option Nat :=
-  let cs := base.toList
+def parseGenStem (cs : List Char) : Option Nat :=
   let ds := cs.takeWhile isDigit
   let rest := cs.dropWhile isDigit
   if ds.length < 4 then none
@@ -25,18 +27,25 @@ def parseGenBase (base : String) : Option Nat :=
     | _ => none
 
 /-- file names considered by `load_from_path`: not `._*`, ends with `.mhl`; the number parsed from the stem -/
-def parseGenName (fileName : String) : Option Nat :=
-  let cs := fileName.toList
-  if (cs.length > 2 && cs.take 2 == ['.', '_']) || !fileName.endsWith Gen.fileExtension then none
-  else parseGenBase (String.ofList (cs.take (cs.length - Gen.fileExtension.length)))
+def parseGenChars (cs : List Char) : Option Nat :=
+  if (cs.length > 2 && cs.take 2 == ['.', '_']) || cs.drop (cs.length - extChars.length) != extChars
+      || cs.length < extChars.length then none
+  else parseGenStem (cs.take (cs.length - extChars.length))
 
-def pad4 (n : Nat) : String :=
-  let s := toString n
-  String.ofList (List.replicate (4 - s.length) '0') ++ s
+def parseGenName (fileName : String) : Option Nat := parseGenChars fileName.toList
+
+/-- decimal digits, most significant first (`str(n)`; the empty list for 0 is padded below) -/
+def decChars (n : Nat) : List Char := (Codec.digits 10 n).map fun d => Char.ofNat (48 + d)
+
+/-- `f"{index:04d}"` -/
+def pad4Chars (n : Nat) : List Char := Codec.rjust 4 '0' (decChars n)
 
 /-- `_new_generation_filename`: f"{index:04d}_{folder_name}_{date_string}.mhl" -/
+def genFileNameChars (index : Nat) (folder stamp : List Char) : List Char :=
+  pad4Chars index ++ ['_'] ++ folder ++ ['_'] ++ stamp ++ extChars
+
 def genFileName (index : Nat) (folder stamp : String) : String :=
-  pad4 index ++ "_" ++ folder ++ "_" ++ stamp ++ Gen.fileExtension
+  String.ofList (genFileNameChars index folder.toList stamp.toList)
 
 /-! ## loaded histories -/
 
